@@ -395,11 +395,28 @@ class ModuleScan(ast.NodeVisitor):
         def base_of_expr(e, depth=0):
             if e is None or depth > 6:
                 return ("local", "?")
+            if isinstance(e, ast.BoolOp):           # `a or {}`: either operand
+                best = ("fresh", "literal")
+                for v_ in e.values:
+                    b_ = base_of_expr(v_, depth + 1)
+                    if BASES.index(b_[0]) < BASES.index(best[0]):
+                        best = b_
+                return best
             if isinstance(e, (ast.Dict, ast.List, ast.Set, ast.ListComp, ast.DictComp, ast.SetComp, ast.Constant, ast.Tuple,
-                              ast.JoinedStr, ast.BinOp, ast.Compare, ast.BoolOp, ast.UnaryOp, ast.GeneratorExp)):
+                              ast.JoinedStr, ast.BinOp, ast.Compare, ast.UnaryOp, ast.GeneratorExp)):
                 return ("fresh", "literal")
             rt = root_and_chain(e)
             if rt is None:
+                inner = e
+                while True:                             # (a or {}).get(k): look through the chain at the parenthesised operand
+                    if isinstance(inner, (ast.Subscript, ast.Attribute, ast.Starred)):
+                        inner = inner.value
+                    elif isinstance(inner, ast.Call) and isinstance(inner.func, ast.Attribute) and inner.func.attr in ("get", "setdefault", "view", "__getitem__"):
+                        inner = inner.func.value
+                    else:
+                        break
+                if inner is not e and isinstance(inner, (ast.BoolOp, ast.IfExp)):
+                    return base_of_expr(inner, depth + 1)
                 if isinstance(e, ast.Call):
                     return ("fresh", "call")
                 if isinstance(e, ast.IfExp):
@@ -535,7 +552,8 @@ class ModuleScan(ast.NodeVisitor):
                                           "end_line": getattr(st, "end_lineno", n.lineno), "base": b[0], "base_name": b[1],
                                           "target": norm_target(f.value),
                                           "pattern": {"setdefault": "check_then_act", "add": "idem_store"}.get(f.attr, "mutcall"),
-                                          "guard_line": None, "detail": f.attr})
+                                          "guard_line": None, "detail": f.attr,
+                                          "key": (n.args[0].value if n.args and isinstance(n.args[0], ast.Constant) and isinstance(n.args[0].value, str) else None)})
                     if isinstance(f, ast.Name) and f.id in ("setattr", "delattr") and n.args:
                         b = base_of_expr(n.args[0])
                         key = unparse(n.args[1]) if len(n.args) > 1 else "?"
